@@ -82,10 +82,14 @@ impl Add<Duration> for Duration {
     #[verifier::external_body]
     fn add(self, rhs: Duration) -> Duration { unimplemented!() }
 }
+pub open spec fn dur_scale(n: int, k: int) -> int {
+    if k == -1 { -n } else if k == 1 { n } else if k == 0 { 0 } else { n * k }
+}
 impl vstd::std_specs::ops::MulSpecImpl<i32> for Duration {
     open spec fn obeys_mul_spec() -> bool { true }
-    open spec fn mul_req(self, rhs: i32) -> bool { dur_ok(self.nanos() * rhs as int) }
-    open spec fn mul_spec(self, rhs: i32) -> Duration { Duration::mk(self.nanos() * rhs as int) }
+    // (the case split keeps the common `* -1` linear for the solver)
+    open spec fn mul_req(self, rhs: i32) -> bool { dur_ok(dur_scale(self.nanos(), rhs as int)) }
+    open spec fn mul_spec(self, rhs: i32) -> Duration { Duration::mk(dur_scale(self.nanos(), rhs as int)) }
 }
 impl Mul<i32> for Duration {
     type Output = Duration;
